@@ -442,9 +442,6 @@ func (vc *FnVC) Translate() {
 		}
 		vc.elabModifies(env)
 	}
-	// collect model inputs for counterexamples
-	vc.collectInputs()
-
 	// vacuity probe: preconditions satisfiable
 	pre := vc.ob("presat", "requires-satisfiable", "conjunction of requires is satisfiable", "false", fn.Pos())
 	pre.Expect = "sat"
@@ -459,6 +456,8 @@ func (vc *FnVC) Translate() {
 			vc.notes = append(vc.notes, fmt.Sprintf("loop %d has no invariant: state havocked at header (only 'true' assumed)", li.ord))
 		}
 	}
+	// model inputs for counterexamples: only memory the VC actually mentions
+	vc.collectInputs()
 }
 
 func (vc *FnVC) collectInputs() {
@@ -885,6 +884,7 @@ func (vc *FnVC) loopHeader(h *ssa.BasicBlock, li *loopInfo, fwdPreds []*ssa.Basi
 		vc.curHeap[k] = v
 	}
 	vc.havocLoopHeap(li)
+	vc.bumpAllVersions()
 	rn := vc.declConst(fmt.Sprintf("reach$%d", h.Index), "Bool")
 	vc.curReach = rn
 	// 3. assume invariants
